@@ -1074,6 +1074,30 @@ def scenario_p2p_reinvite(rng):
     return out
 
 
+def scenario_stall(rng):
+    """a connection stalls (C10, C14): one of a user's two sessions on a group topic stops reading, its queue fills up; the next message
+    the topic fans out cannot be handed to it and the topic detaches it - the user's online count follows, the others are told when the
+    last one goes; then the stalled connection is closed"""
+    out = _preamble(rng)
+    out.append("newgrp S1" + rng.choice(["", " auth=JRWPS"]))
+    out.extend(["sub S4 T1", "sub S2 T1"])
+    if rng.chance(1, 2):
+        out.append("sub S5 T1")          # a background session of U2
+    out.append("pub S1 T1 Q1")
+    who = rng.choice(["S4", "S4", "S1", "S2"])
+    out.append(f"stall {who}")
+    pubber = {"S4": "S1", "S1": "S4", "S2": rng.choice(["S1", "S2x"])}[who].replace("S2x", "S1")
+    out.append(f"pub {pubber} T1 Q2" + rng.choice(["", " noecho=1"]))
+    out.append(f"get {rng.choice([x for x in ['S1', 'S2', 'S4'] if x != who])} T1 sub")
+    for _ in range(1 + rng.below(3)):
+        s_ = rng.choice([x for x in ["S1", "S2", "S4"] if x != who])
+        out.append(rng.choice([f"leave {s_} T1", f"pub {s_} T1 Q3", f"get {s_} T1 sub", f"sub {s_} T1", f"note {s_} T1 read 2"]))
+    out.append(f"drop {who}")
+    out.append(f"sub {who} T1")
+    out.append(f"get {who} T1 sub")
+    return out
+
+
 def gen_world(rng, tier):
     ncases = 600 if tier == "thorough" else 420
     for i in range(ncases):
@@ -1089,6 +1113,10 @@ def gen_world(rng, tier):
         if i % 6 == 1:
             # crossings are extra too (a generator of their own)
             for l in scenario_cross(rng.fork(f"cross-scenario-{i}")):
+                yield l
+        if i % 12 == 7:
+            # a stalled connection (a generator of their own)
+            for l in scenario_stall(rng.fork(f"stall-scenario-{i}")):
                 yield l
         if i % 12 == 10:
             # invited back into a p2p topic (a generator of their own)
